@@ -30,6 +30,7 @@ type harnessDef struct {
 	Witness  int
 	OnlyTier string
 	Repeat   int    // native replays of a schedule-dependent counterexample (with jitter) before giving up
+	Race     bool   // happens-before race analysis in the engine; native replays are built with -race
 	DualTags string // second program (translation validation): run the harness in both, compare emits
 }
 
@@ -87,6 +88,7 @@ type checkRun struct {
 	tmp      string
 	testBins map[string]string
 	known    knownFile
+	race bool // native binaries of the current harness are built with -race
 }
 
 func (cr *checkRun) world(tags string) (*sym.World, error) {
@@ -104,10 +106,16 @@ func (cr *checkRun) world(tags string) (*sym.World, error) {
 // testBinary builds (once) the native replay binary for a package and tag set.
 func (cr *checkRun) testBinary(pkgKey, tags string, harnessFuncs []string) (string, error) {
 	key := pkgKey + "|" + tags
+	if cr.race {
+		key += "|race"
+	}
 	if b, ok := cr.testBins[key]; ok {
 		return b, nil
 	}
 	dir := filepath.Join(cr.tmp, "native-"+pkgKey+"-"+strings.ReplaceAll(tags, ",", "_"))
+	if cr.race {
+		dir += "-race"
+	}
 	if err := os.MkdirAll(dir, 0o755); err != nil {
 		return "", err
 	}
@@ -144,7 +152,11 @@ func (cr *checkRun) testBinary(pkgKey, tags string, harnessFuncs []string) (stri
 		return "", err
 	}
 	bin := filepath.Join(dir, pkgKey+".test")
-	cmd := exec.Command("go", "test", "-c", "-tags", tags, "-vet=off", "-overlay", ovp, "-o", bin, "./"+pkgDirs[pkgKey])
+	args := []string{"test", "-c", "-tags", tags, "-vet=off", "-overlay", ovp, "-o", bin}
+	if cr.race {
+		args = append(args, "-race")
+	}
+	cmd := exec.Command("go", append(args, "./"+pkgDirs[pkgKey])...)
 	cmd.Dir = repoDir
 	cmd.Env = append(os.Environ(), "GOFLAGS=-mod=mod", "GOPROXY=off", "GOSUMDB=off", "GOTOOLCHAIN=local")
 	out, err := cmd.CombinedOutput()
@@ -201,14 +213,21 @@ func (cr *checkRun) runNative(pkgKey, tags, fn string, model map[string]uint64, 
 	}
 	f.Write(cj)
 	f.Close()
-	return runNativeBin(bin, filepath.Join(repoDir, pkgDirs[pkgKey]), fn, f.Name(), timeout)
+	return runNativeBin(bin, filepath.Join(repoDir, pkgDirs[pkgKey]), fn, f.Name(), timeout, cr.race)
 }
 
-func runNativeBin(bin, dir, fn, cexPath string, timeout time.Duration) (*nativeResult, error) {
+func runNativeBin(bin, dir, fn, cexPath string, timeout time.Duration, race bool) (*nativeResult, error) {
 	// address-space limit: a request beyond the by-design allocation ceiling aborts instead of thrashing
+	// (not for -race binaries: the race runtime reserves a large shadow address space)
 	cmd := exec.Command("sh", "-c", `ulimit -v 16777216; exec "$0" "$@"`, bin, "-test.run", "^TestVerifReplay$", "-test.v", "-test.timeout", timeout.String())
+	if race {
+		cmd = exec.Command(bin, "-test.run", "^TestVerifReplay$", "-test.v", "-test.timeout", timeout.String())
+	}
 	cmd.Dir = dir
 	cmd.Env = append(os.Environ(), "VERIF_HARNESS="+fn, "VERIF_CEX="+cexPath, "GOMEMLIMIT=2GiB")
+	if race {
+		cmd.Env = append(cmd.Env, "GORACE=halt_on_error=0 exitcode=0")
+	}
 	done := make(chan struct{})
 	var out []byte
 	go func() { out, _ = cmd.CombinedOutput(); close(done) }()
@@ -253,6 +272,8 @@ func reproduced(v *sym.Outcome, nr *nativeResult) bool {
 		return nr.timedOut
 	case "goroutine-leak":
 		return strings.Contains(nr.out, "VERIF-LEAK")
+	case "data-race":
+		return strings.Contains(nr.out, "WARNING: DATA RACE")
 	}
 	// The native run is the ground truth: an assertion of the same harness failing on the real
 	// code at the solver's input confirms the violation even when an opaque model (codec bit
@@ -385,6 +406,8 @@ func runCheck(pd *propDef, tier string, seed int, verifDir, only string, workers
 		if hd.Cfg != nil {
 			hd.Cfg(&spec.Cfg)
 		}
+		spec.Cfg.Race = hd.Race
+		cr.race = hd.Race
 		if tier == "thorough" {
 			spec.Cfg.CrossCheck = true
 		}
@@ -490,7 +513,9 @@ func runCheck(pd *propDef, tier string, seed int, verifDir, only string, workers
 				for _, o := range wo.Observes {
 					want = append(want, o.Label+"="+strings.Join(o.Vals, ","))
 				}
-				if !nr.returned || strings.Join(want, "|") != strings.Join(nr.observes, "|") {
+				if hd.Race && strings.Contains(nr.out, "WARNING: DATA RACE") {
+					inconclusive = append(inconclusive, fmt.Sprintf("%s: the Go race detector reports a race on a path the engine found race-free (choices %s): %s", hd.Name, wo.Choices, tailStr(nr.out, 600)))
+				} else if !nr.returned || strings.Join(want, "|") != strings.Join(nr.observes, "|") {
 					inconclusive = append(inconclusive, fmt.Sprintf("%s: witness replay disagrees with the engine (choices %s): engine %v native %v panic=%q out=%q", hd.Name, wo.Choices, want, nr.observes, nr.panicMsg, tailStr(nr.out, 300)))
 				} else {
 					he.WitnessReplays++
@@ -753,6 +778,7 @@ func replayRecorded(dir string) int {
 	}
 	cr := &checkRun{verifDir: "/verif", worlds: map[string]*sym.World{}, overlay: ov, realOf: realOf, tmp: tmp, testBins: map[string]string{}}
 	parts := strings.SplitN(cex.Harness, ".", 2)
+	cr.race = cex.Label == "data-race"
 	nr, err := cr.runNative(parts[0], cex.Tags, parts[1], cex.Values, cex.Params, 60*time.Second)
 	if err != nil {
 		fmt.Fprintln(os.Stderr, err)
